@@ -85,6 +85,7 @@ pub fn select_bases(ctx: &Ctx, prop: &str) -> Vec<Base> {
                     b.pk = pk;
                     b.msg = msg;
                     b.fields = model.sig_fields(&b.sig).unwrap();
+                    b.seed = None;
                     bases.push(b);
                 }
             }
